@@ -467,6 +467,9 @@ def random_set_type(rng):
             return st, rng.choice([128, 129, 200, 255, rng.randrange(128, 256), rng.randrange(12, 128)])
 
 
+COUNT0_WITH_VALUE_P = 0.0      # share of count-0 attributes that keep the value characteristic (zero elements, zero bytes); set by C03
+
+
 def random_count(rng, big=False):
     k = rng.random()
     if k < 0.5:
@@ -492,8 +495,9 @@ def random_template_attr(rng, label, codes, invariant=False, subset=None, big=Fa
     vb = vv = None
     if 'V' in subset:
         ecount = 1 if count is None else count
-        if ecount == 0:
-            count = ecount = rng.randrange(1, 4)      # a count of zero carries no value (3.2.2.1)
+        if ecount == 0 and not (COUNT0_WITH_VALUE_P and rng.random() < COUNT0_WITH_VALUE_P):
+            count = ecount = rng.randrange(1, 4)      # a count of zero normally carries no value (3.2.2.1)
+        # else: the value characteristic is present and holds zero elements, i.e. zero bytes
         vb, vv = gen_values(rng, 19 if rc is None else rc, ecount, big)
     return TAttr(label, invariant, count, rc, units, vb, vv)
 
@@ -513,8 +517,8 @@ def random_cell(rng, ta, codes, subset=None, big=False):
     vb = vv = None
     if 'V' in subset:
         ecount = e['count'] if count is None else count
-        if ecount == 0:
-            count = ecount = rng.randrange(1, 4)          # a count of zero carries no value
+        if ecount == 0 and not (COUNT0_WITH_VALUE_P and rng.random() < COUNT0_WITH_VALUE_P):
+            count = ecount = rng.randrange(1, 4)          # a count of zero normally carries no value
         vb, vv = gen_values(rng, e['rc'] if rc is None else rc, ecount, big)
     return Cell('attrib', count, rc, units, vb, vv)
 
